@@ -916,6 +916,12 @@ func runC13(c *Ctx) error {
 	x.valueVsText()
 	x.endToEnd(c.rng.Fork())
 	x.stringResults(c.rng.Fork())
+	x.doorStreaming(c.rng.Fork())
+	x.doorPrintResults(c.rng.Fork())
+	x.doorTypesParse(c.rng.Fork())
+	x.doorCircuitFile(c.rng.Fork())
+	x.doorConcurrent(c.rng.Fork())
+	x.doorCommandLine()
 	x.fixedCases()
 	return nil
 }
